@@ -68,6 +68,11 @@ class CalcModel(Ext):
         raise Unsupported(f"calc.{name}")
 
 
+def ops_binop(I, op, a, b):
+    from .. import ops
+    return ops.binop(I, op, a, b)
+
+
 class AtomsFB(Ext):
     """Atoms as seen by ForceBias: n atoms, positive masses, arbitrary finite forces/positions.
     With `constraints=[]` set_momenta/get_momenta and set_positions are the identity on the data
@@ -104,6 +109,9 @@ class AtomsFB(Ext):
             return self.positions
         if name == "get_momenta":
             return Builtin("Atoms.get_momenta", lambda I_, a, k: self.momenta.like(self.momenta.rep))
+        if name == "get_velocities":
+            # ase: momenta / masses[:, None]  (the REAL masses of the atoms)
+            return Builtin("Atoms.get_velocities", lambda I_, a, k: self.momenta.like(ops_binop(I_, "/", self.momenta.rep, self.mass)))
         if name == "set_momenta":
             def sm(I_, a, k):
                 self.log.append(("set_momenta", k.get("apply_constraint", a[1] if len(a) > 1 else True)))
